@@ -126,6 +126,22 @@ class C15(Prop):
             yield {"k": "live", "seq": seq, "pkg": "py"}
             if t % 3 == 0:
                 yield {"k": "live", "seq": [s for s in seq if "M" not in s[1:3]], "pkg": "torch"}
+        # arithmetic on stabilizer states = polynomial arithmetic on their density-matrix expansion (itself judged under C19)
+        for r in (0, 1, 2):
+            for i in sorted(self.pool):
+                if self.pool[i][0] in ("P", "M", "Q", "K"):
+                    yield {"k": "rho", "r": r, "i": i, "pkg": "py"}
+        for n_ in (1, 2, 3, 5):
+            yield {"k": "const", "name": "identity", "nn": n_}
+            yield {"k": "const", "name": "zero", "nn": n_}
+        for i in sorted(self.pool):
+            typ, terms = self.pool[i]
+            for to in ("as_monomial", "as_polynomial", "as_list"):
+                if (typ == "P") or (typ == "M" and to == "as_polynomial") or (typ == "L" and to == "as_polynomial"):
+                    s_ = {"k": "cast", "i": i, "to": to}
+                    if typ == "M" or to == "as_monomial":
+                        s_["pkg"] = "py"           # torchclifford has no PauliMonomial
+                    yield s_
         # scalars next to the units: c = u * (1 +- 2^-k) must not be taken for the unit u (pyclifford, double precision)
         for i in sorted(self.pool):
             typ, terms = self.pool[i]
@@ -174,6 +190,61 @@ class C15(Prop):
             return [rec]
         if scn["k"] == "live":
             return self._live(scn, be, n)
+        if scn["k"] == "rho":
+            typ, terms = self.pool[scn["i"]]
+            out = []
+            rows = [[3, 0, 0], [3, 3, 2], [1, 1, 2], [0, 1, 0]]      # ZI, -ZZ | -XX, IX : a signed valid tableau
+            for op in ("neg", "mul", "div", "add", "sub", "matmul"):
+                if typ == "K" and op == "matmul":
+                    continue
+                rec = {"op": op, "n": n, "rho": True, "expect_refuse": False}
+                try:
+                    S = be.state(rows, scn["r"])
+                    y = mk(be, typ, terms)
+                    D = S.density_matrix
+                    if op == "neg":
+                        rec["x"] = pv(be, D, n)
+                        r = -S
+                    elif op == "mul":
+                        rec["x"], rec["y"] = {"t": "K", "terms": [[[0] * n + [0], 3, -1, 1]]}, pv(be, D, n)
+                        r = (1.5 - 0.5j) * S
+                    elif op == "div":
+                        rec["x"], rec["y"] = pv(be, D, n), {"t": "K", "terms": [[[0] * n + [0], 0, 1, 1]]}
+                        r = S / 0.5j
+                    else:
+                        rec["x"], rec["y"] = pv(be, D, n), pv(be, y, n)
+                        r = (S + y) if op == "add" else (S - y) if op == "sub" else (S @ y)
+                    rec["ret"] = pv(be, r, n)
+                    rec["E"] = maxe(rec["x"]) + (maxe(rec["y"]) if "y" in rec else 0) + maxe(rec["ret"])
+                    rec["s1"] = be.p_state(S) == {"rows": rows, "r": scn["r"]}
+                except Exception as e:
+                    rec["exc"] = _exc(e)
+                    rec.setdefault("E", 8)
+                out.append(rec)
+            return out
+        if scn["k"] == "const":
+            rec = {"op": "const", "name": scn["name"], "n": scn["nn"], "E": 0}
+            try:
+                f = be.paulialg.pauli_identity if scn["name"] == "identity" else be.paulialg.pauli_zero
+                rec["ret"] = pv(be, f(scn["nn"]), scn["nn"])
+            except Exception as e:
+                rec["exc"] = _exc(e)
+            return [rec]
+        if scn["k"] == "cast":
+            typ, terms = self.pool[scn["i"]]
+            rec = {"op": "cast", "n": n, "to": scn["to"]}
+            try:
+                x = mk(be, typ, terms)
+                if not hasattr(x, scn["to"]):
+                    return []
+                rec["x"] = pv(be, x, n)
+                rec["ret"] = pv(be, getattr(x, scn["to"])(), n)
+                rec["x1"] = pv(be, x, n)
+                rec["E"] = maxe(rec["x"]) + maxe(rec["ret"])
+            except Exception as e:
+                rec["exc"] = _exc(e)
+                rec.setdefault("E", 8)
+            return [rec]
         if scn["k"] == "fine":
             typ, terms = self.pool[scn["i"]]
             k = scn["kk"]
